@@ -786,6 +786,12 @@ def mutations(target, req, res):
     yield ('authentic', False, list(res['payloads']))
     # the same suite, its transforms listed in another order (any order is legal; KEYMAT is taken in the order of RFC 7296
     # 2.17 whatever the order on the wire)
+    if target == 'INIT':
+        # RFC 7296 3.3.1: in IKE_SA_INIT the SPI of the IKE_SA is in the header; a responder may all the same send the accepted
+        # proposal back as it was offered, SPI field included (or with any other SPI in it)
+        yield ('proposal-spi:echoed-from-offer', False, with_sa([(num, proto, offer[2], ts)]))
+        yield ('proposal-spi:other-value', False, with_sa([(num, proto, b'\x9a' * 8, ts)]))
+        yield ('proposal-spi:four-octets', False, with_sa([(num, proto, b'\x9b' * 4, ts)]))
     yield one('reorder:reversed', tuple(reversed(ts)))
     yield one('reorder:integ-first', tuple(sorted(ts, key=lambda t: (t[0] != 3, t[0]))))
     for i, t in enumerate(ts):
@@ -885,6 +891,14 @@ def tamper_case(target, label):
                 v['ke'], sorted(groups))))
     accepted = (bool(after['ike']) or any(v['exch'] == 35 for v in later)) if target == 'INIT' else \
         (len(after['kids']) > len(before['kids']) or len(after['newsa']) > len(before['newsa']))
+    if label.startswith('proposal-spi:'):
+        hdr_spi_r = res['hdr'][1]
+        auths = [x for x in w.sent_log[sent_before:] if x.sender == 'A' and x.data[18] == 35 and not x.data[19] & 0x20]
+        if not auths:
+            bad.append(('no-ike-auth', 'a response whose proposal carries an SPI field was not followed by IKE_AUTH'))
+        elif auths[0].data[8:16] != hdr_spi_r:
+            bad.append(('responder-spi-not-from-header', 'IKE_AUTH goes to responder SPI %s, the IKE_SA_INIT response header says %s' % (
+                auths[0].data[8:16].hex(), hdr_spi_r.hex())))
     if accepted and target != 'INIT' and label.startswith(('authentic', 'reorder:')):
         # same content as the authentic response: both kernels end up with mirror images, keys included
         ka, kb = w.endpoints['A'].kernel.sad, w.endpoints['B'].kernel.sad
